@@ -96,6 +96,11 @@ pub enum Mutation {
     SwapAuthData { other: u16 },
     /// unmask with the original destination id and re-mask for another node id
     Remask { to: u8 },
+    /// same unmasked header and body under a different IV (header re-masked accordingly)
+    ReIv { seed: u8 },
+    /// handshake packet: replace the attached record (0 = strip it, 1 = the sender's older record,
+    /// 2 = the sender's current record) leaving signature, ephemeral key and body untouched
+    HandshakeRecord { variant: u8 },
 }
 
 #[derive(Clone, Copy, Debug, PartialEq, Eq, Hash, Serialize, Deserialize)]
